@@ -299,8 +299,8 @@ class AstKindProp(Prop):
         irj = G.gen_ir(r, rich=r.random() < 0.6, p_typ=1.0 if full else 0.85, p_doc=1.0 if full else 0.85)
         irj = self.restrict(irj, r)
         opts = self.gen_opts(r)
-        if opts.get("word_wrap") and r.random() < 0.7:
-            irj = G.lengthen(r, irj)
+        if (opts.get("word_wrap") and r.random() < 0.7) or (not opts.get("word_wrap") and r.random() < 0.15):
+            irj = G.lengthen(r, irj)  # (long prose with wrapping off too: nothing may be wrapped then)
         c = {"ir": irutil.ir_to_json(irj), "opts": opts}
         run.dist["n_params"][len(irj["params"])] += 1
         for _, p in irj["params"]:
@@ -678,11 +678,29 @@ class C03(AstKindProp):
     def absent_may_become(self, typ):
         return []
 
+    def classify(self, c, fl):
+        if isinstance(fl, dict) and str(fl.get("what", "")).startswith("a returned default appears"):
+            return None  # no recorded finding is about state carried from one conversion to the next
+        return AstKindProp.classify(self, c, fl)
+
     def extra_checks(self, c, ir, art, back):
         fails = []
         want = c["opts"]["function_type"]
         if back.get("type") != want:
             fails.append({"what": "function kind not preserved", "want": want, "got": back.get("type")})
+        # right after a description with a returned default: the same description WITHOUT it (its docstring text is
+        # identical - nothing remembered about that text may carry the default over)
+        r = c["ir"].get("returns")
+        if r is not None and "default" in r and r.get("doc") and not fails:
+            c2 = copy.deepcopy(c)
+            del c2["ir"]["returns"]["default"]
+            try:
+                ir2, _, back2 = self.conv(c2)
+                got = ((back2.get("returns") or {}).get("return_type") or {}).get("default")
+                if got is not None:
+                    fails.append({"what": "a returned default appears in the round trip of a description that has none (converted right after one that has)", "got": repr(got)[:80]})
+            except Exception:
+                pass
         return fails
 
     def classify_kind(self, c, fl):
